@@ -99,7 +99,9 @@ Definition before_ref (ref : option Z) (e : pentry) : bool :=
   match ref with None => true | Some t => pe_ts e <? t end.
 (* Cache::Fixed: filter + map + collect::<HashMap>() — a later entry of the (sorted) db overwrites *)
 Definition fixed_keep (used : list (list N)) (target : list N) (ref : option Z) (e : pentry) : bool :=
-  mem_str (pe_base e) used && str_eqb (pe_eq e) target && before_ref ref e.
+  mem_str (pe_base e) used && str_eqb (pe_eq e) target
+  && negb (str_eqb (pe_base e) target)          (* a self pair is never a rate of the report *)
+  && before_ref ref e.
 Definition fixed_cache (used : list (list N)) (target : list N) (ref : option Z) (db : list pentry)
   : list (list N * (Z * dec)) :=
   fold_left (fun m e => if fixed_keep used target ref e then upsert (pe_base e) (pe_ts e, pe_rate e) m else m) db [].
@@ -108,7 +110,8 @@ Definition fixed_cache (used : list (list N)) (target : list N) (ref : option Z)
    commodities without entry get no key *)
 Definition ts_leb (a b : pentry) : bool := pe_ts a <=? pe_ts b.
 Definition comm_cache (target comm : list N) (db : list pentry) : list pentry :=
-  sort_by ts_leb (filter (fun e => str_eqb comm (pe_base e) && str_eqb (pe_eq e) target) db).
+  sort_by ts_leb (filter (fun e => str_eqb comm (pe_base e) && str_eqb (pe_eq e) target
+                                   && negb (str_eqb (pe_base e) target)) db).
 Definition timed_cache (used : list (list N)) (target : list N) (db : list pentry)
   : list (list N * list pentry) :=
   flat_map (fun comm => match comm_cache target comm db with [] => [] | cc => [(comm, cc)] end) used.
